@@ -82,11 +82,11 @@ def run():
         pool = ThreadPoolExecutor(max_workers=4)     # TLC runs and the Go build overlap (each TLC run is mostly JVM start)
         ov = vf.make_overlay(sd, HARNESS)
         binary = os.path.join(sd, "auth.test")
-        fbuild = pool.submit(vf.go_test_compile, ov, PKG, binary)
+        fbuild = pool.submit(vf.go_test_compile, ov, PKG, binary, timeout=3600)
 
         def gen_stage(policy):
             fs = pool.submit(generate, chk, sd, "UserStore_Gen.cfg", {"Policy": '"%s"' % policy, "Depth": "24" if thorough else "20"},
-                             "sim-" + policy, "num=%d" % (1200 if thorough else 120), 26 if thorough else 22, vf.SEED)
+                             "sim-" + policy, "num=%d" % (3000 if thorough else 200), 26 if thorough else 22, vf.SEED)
             fx = pool.submit(generate, chk, sd, "UserStore_GenX.cfg", {"Policy": '"%s"' % policy, "Depth": "4" if thorough else "3"},
                              "exhaustive-" + policy)
             return fs, fx
@@ -95,7 +95,7 @@ def run():
                                  "boot-" + (pw or "nopw")) for pw in ("", "secret")}
         # 1. the design: with the consistent switches the three stores agree in every reachable state
         fmc = [(pool.submit(vf.tlc, "UserStore", "UserStore", "UserStore_MC.cfg" if thorough else "UserStore_MCq.cfg", sd,
-                            workers=4, timeout=3000), "MC consistent design (policy empty)")]
+                            workers=4, timeout=5400), "MC consistent design (policy empty)")]
         if thorough:
             fmc.append((pool.submit(vf.tlc, "UserStore", "UserStore", "UserStore_MCq_nilonly.cfg", sd, workers=4, timeout=3000),
                         "MC consistent design (policy nilonly, file store keeps nil and empty apart)"))
@@ -173,7 +173,7 @@ def replay_only(chk, sd, replay_file):
     if not beh:
         raise vf.NoVerdict("replay file has no behaviour")
     ov = vf.make_overlay(sd, HARNESS)
-    binary = vf.go_test_compile(ov, PKG, os.path.join(sd, "auth.test"))
+    binary = vf.go_test_compile(ov, PKG, os.path.join(sd, "auth.test"), timeout=3600)
     env = {"VERIF_FRESH": "1"}
     env.update(m.get("env") or {})
     res = replay(sd, binary, [beh], "one", env)
